@@ -6,26 +6,35 @@ sys.path.insert(0, os.path.dirname(os.path.dirname(os.path.abspath(__file__))))
 
 def main():
     req = json.load(sys.stdin)
+    real_stdout = sys.stdout
+    sys.stdout = sys.stderr          # anything the code under test prints (mlog warnings ...) must not disturb the JSON reply
+    try:
+        _main(req, real_stdout)
+    finally:
+        sys.stdout = real_stdout
+
+
+def _main(req, out):
     from contracts import REG
     for m in req['modules']:
         importlib.import_module(m)
     from pyvc import native
     if req['op'] == 'replay':
-        out = []
+        out_ = []
         for item in req['items']:
             c = REG.contracts[tuple(item['key'])]
             st, info = native.replay_inputs(REG, c, item['inputs'])
-            out.append({'status': st, 'info': info})
-        json.dump(out, sys.stdout, default=repr)
+            out_.append({'status': st, 'info': info})
+        json.dump(out_, out, default=repr)
     elif req['op'] == 'bounded':
         mod = importlib.import_module(req['enumerator'])
         if req.get('replay') is not None:
             fn, conv = mod.CHECKS[req['part']]
             ev, nt, fails = fn([conv(req['replay'])])
-            json.dump({'failures': fails, 'evaluations': ev}, sys.stdout, default=repr)
+            json.dump({'failures': fails, 'evaluations': ev}, out, default=repr)
             return
         res = mod.run(REG, req.get('tier', 'quick'), int(req.get('seed', 0)), req.get('jobs', 16))
-        json.dump(res, sys.stdout, default=repr)
+        json.dump(res, out, default=repr)
 
 
 if __name__ == '__main__':
